@@ -597,6 +597,31 @@ def drop_dead_new_locals(fn, recorded_names):
     return k
 
 
+def absorb_renaming_aliases(fn, recorded_names):
+    """`b_tmp = ...` (possibly one target of an unpacking) ... `a = b_tmp` with b_tmp a new local bound once and read
+    only there: the value is bound to `a` directly and the alias statement dropped (the shape an inlined helper leaves
+    when its local had to be renamed to avoid the caller's name)."""
+    k = 0
+    for _owner, blk in _blocks(fn):
+        i = 0
+        while i < len(blk):
+            st = blk[i]
+            if isinstance(st, ast.Assign) and len(st.targets) == 1 and isinstance(st.targets[0], ast.Name) and isinstance(st.value, ast.Name):
+                a, b = st.targets[0].id, st.value.id
+                stores_b = [n for n in ast.walk(fn) if isinstance(n, ast.Name) and n.id == b and isinstance(n.ctx, ast.Store)]
+                loads_b = _loads(fn, b)
+                if b not in recorded_names and b not in _params(fn) and len(stores_b) == 1 and len(loads_b) == 1 and a != b:
+                    # the definition of b lies earlier in the same block; `a` is not touched in between
+                    j = next((jj for jj in range(i) if any(x is stores_b[0] for x in ast.walk(blk[jj]))), None)
+                    if j is not None and not any(isinstance(x, ast.Name) and x.id == a for jj in range(j, i) for x in ast.walk(blk[jj])):
+                        stores_b[0].id = a
+                        del blk[i]
+                        k += 1
+                        continue
+            i += 1
+    return k
+
+
 # value-only library calls: repeating one of them is not observable (used to allow multi-use aliases to be inlined)
 PURE_CALLS = {
     "slice", "max", "min", "sum", "abs", "len", "float", "int", "bool", "round", "sorted", "tuple", "list", "set", "dict", "range", "zip", "enumerate", "isinstance",
@@ -622,7 +647,6 @@ def split_parallel_assignments(fn, recorded_names):
                 and isinstance(st.value, ast.Tuple)
                 and len(st.targets[0].elts) == len(st.value.elts)
                 and all((isinstance(x, ast.Name)) or (isinstance(x, ast.Attribute) and all(isinstance(y, (ast.Attribute, ast.Name, ast.Load, ast.Store)) for y in ast.walk(x))) for x in st.targets[0].elts)
-                and (all(isinstance(x, ast.Name) and x.id not in recorded_names for x in st.targets[0].elts) or any(isinstance(x, ast.Attribute) for x in st.targets[0].elts))
             ):
                 tnames = {ast.unparse(x) for x in st.targets[0].elts}
                 if not any(isinstance(x, (ast.Name, ast.Attribute)) and ast.unparse(x) in tnames for v in st.value.elts for x in ast.walk(v)) and len(tnames) == len(st.targets[0].elts):
@@ -1269,6 +1293,8 @@ def normalise(project, path=PINNED):
                     k = inline_new_locals(fi.node, rec_names)
                     stats["locals_inlined"] += k
                     progress += k
+                if not progress:
+                    progress += absorb_renaming_aliases(fi.node, rec_names)
                 if not progress:
                     progress += drop_dead_new_locals(fi.node, rec_names | _params(fi.node))
                 if not progress:
